@@ -19,7 +19,7 @@ def gen(tier, seed):
             for mode in ('some', 'landmark', 'isolated', 'all', 'first'):
                 for _ in range(12 if thorough else 1):
                     n_lm = rnd.choice([1, 2])
-                    c = GC.gen_graph(rnd, kind, n_poses, n_lm, rnd.choice([0, 1]), custom=False,
+                    c = GC.gen_graph(rnd, kind, n_poses, n_lm, rnd.choice([0, 1]), custom=(mode == 'some' and n_poses >= 3),    # (also user-defined edges on numerical Jacobians)
                                      fixed_mode=mode if mode in ('some', 'landmark', 'first') else 'some', fix_first=rnd.random() < 0.5)
                     if mode == 'isolated':
                         # a fixed vertex that no edge names: the reduced problem is unaffected by it
